@@ -8,7 +8,7 @@ EXTENDS LiveTimelineImpl
 Mk(d, v, ts, tsbdv, atov, snrv, astv, g, lp) ==
   LET l == ISum(d, Len(d)) IN
   [N |-> Len(d), dur |-> d, vod0 |-> v, TS |-> ts, loopMS |-> (l * 1000) \div ts, tsbd |-> tsbdv, ato |-> atov, snr |-> snrv,
-   ast |-> astv, grain |-> g, loops |-> lp]
+   ast |-> astv, fix |-> FALSE, grain |-> g, loops |-> lp]
 \* (vod0 < loop: the domain of the oracle's IdxOfStart)
 Adm(S) == { s \in S : Admissible(Sc(s)) /\ s.vod0 < ISum(s.dur, s.N) }
 SnrAst == {<<0, 0>>, <<1, 0>>, <<5, 1>>, <<0, 2>>}
@@ -27,11 +27,16 @@ FineThorough == Adm({ Mk(d, 0, 1000, 0, a, x[1], x[2], 1, 3) : d \in FineDur1000
 CoarseDur == {<<2>>, <<1, 3>>, <<4, 2, 2>>, <<3, 5>>, <<2, 2, 2, 2>>, <<1, 2, 3, 2>>}
 CoarseQuick == Adm({ Mk(d, 0, 4, tb, a, 5, 1, 50, 2) : d \in {<<1, 3>>, <<4, 2, 2>>}, tb \in {0, 1, 2}, a \in {0, 100, 1300} })
                \cup Adm({ Mk(<<2, 2, 2, 2>>, 0, 4, 1, a, 0, 0, 50, 2) : a \in {0, 100} })
-CoarseThorough == Adm({ Mk(d, 0, 4, tb, a, x[1], x[2], 50, 2) : d \in CoarseDur, tb \in {0, 1, 2, 3}, a \in {0, 100, 250, 900, 1300, -1}, x \in {<<0, 0>>, <<5, 1>>, <<1, 2>>} })
+CoarseThorough == Adm({ Mk(d, 0, 4, tb, a, x[1], x[2], 50, 2) : d \in CoarseDur, tb \in {0, 1, 2}, a \in {0, 100, 250, 900, 1300, -1}, x \in {<<5, 1>>, <<1, 2>>} })
+                  \cup Adm({ Mk(d, 0, 4, 3, a, 0, 0, 50, 3) : d \in {<<1, 3>>, <<3, 5>>}, a \in {0, 900} })
 
 \* ---- third: TS = 3, every ms
 ThirdQuick == Adm({ Mk(<<1, 2>>, 0, 30, 1, 20, 0, 0, 1, 2) })       \* (TS 30: 33.33 ms ticks)
-ThirdThorough == Adm({ Mk(d, 0, 3, tb, a, x[1], x[2], 1, 2) : d \in {<<1, 2>>, <<2, 4>>, <<3>>}, tb \in {0, 1, 2}, a \in {0, 200, 500}, x \in {<<0, 0>>, <<1, 1>>} })
+ThirdThorough == Adm({ Mk(d, 0, 3, tb, a, x[1], x[2], 1, 2) : d \in {<<1, 2>>, <<2, 4>>}, tb \in {0, 1}, a \in {0, 200}, x \in {<<0, 0>>, <<1, 1>>} })
+                 \cup ThirdQuick
+
+\* sub-ms segment ends with an offset: publishTime rounded to the ms before the change (LiveTimelineImpl_cex_pt_subms.cfg)
+SubMsSet == { s \in FineThorough : s.TS = 1500 /\ s.ato = 1 /\ s.ast = 0 }
 
 ConfigsQuick == FineQuick \cup CoarseQuick \cup ThirdQuick
 ConfigsThorough == FineThorough \cup CoarseThorough \cup ThirdThorough
@@ -39,12 +44,15 @@ ConfigsThorough == FineThorough \cup CoarseThorough \cup ThirdThorough
 \* ---- first decode time not 0 (the code deviates from the oracle: open findings C02-vod0 / C05-vod0)
 Vod0Quick == Adm({ Mk(d, v, 1000, 0, a, 0, x, 1, 2) : d \in {<<2, 3>>, <<5, 2, 3>>}, v \in {1, 3}, a \in {0, 1, 4}, x \in {0, 1} })
              \cup Adm({ Mk(d, v, 4, tb, a, 1, 0, 50, 2) : d \in {<<1, 3>>, <<4, 2, 2>>}, v \in {1, 2}, tb \in {0, 1}, a \in {0, 100} })
-Vod0Thorough == Adm({ Mk(d, v, 1000, 0, a, x[1], x[2], 1, 3) : d \in FineDur1000, v \in {1, 3, 7}, a \in {0, 1, 4, 7, -1}, x \in {<<0, 0>>, <<5, 1>>} })
-             \cup Adm({ Mk(d, v, 4, tb, a, x[1], x[2], 50, 2) : d \in CoarseDur, v \in {1, 2, 6}, tb \in {0, 1, 2}, a \in {0, 100, 1300}, x \in {<<0, 0>>, <<5, 1>>} })
+Vod0Thorough == Adm({ Mk(d, v, 1000, 0, a, x[1], x[2], 1, 3) : d \in FineDur1000, v \in {1, 3}, a \in {0, 1, 4, 7, -1}, x \in {<<0, 0>>, <<5, 1>>} })
+             \cup Adm({ Mk(d, v, 4, tb, a, x[1], x[2], 50, 2) : d \in CoarseDur, v \in {1, 2}, tb \in {0, 1, 2}, a \in {0, 100, 1300}, x \in {<<0, 0>>, <<5, 1>>} })
+
+\* (the transcription of the proposed fixes is checked on this part in the thorough tier)
+Vod0Mid == { s \in Vod0Thorough : s.ato \in {0, 4, 100} }
 
 \* ---- replayed into the real server (GEN lines)
 GenQuick == { s \in FineQuick : s.ato \in {0, 4, -1} } \cup { s \in CoarseQuick : s.ato # 0 \/ s.tsbd = 1 }
             \cup { s \in Vod0Quick : s.ato \in {0, 100} /\ s.ast = 0 }
 GenThorough == ConfigsQuick \cup Vod0Quick \cup { s \in FineThorough : s.ato \in {2, 11} /\ s.snr = 1 }
-               \cup { s \in CoarseThorough : s.ato \in {250, 900, -1} /\ s.snr = 1 /\ s.tsbd # 3 } \cup { s \in ThirdThorough : s.tsbd = 2 /\ s.ato = 500 }
+               \cup { s \in CoarseThorough : s.ato \in {250, -1} /\ s.snr = 1 /\ s.tsbd # 3 } \cup { s \in ThirdThorough : s.tsbd = 1 /\ s.ato = 200 }
 =============================================================================
